@@ -226,6 +226,16 @@ class C11(Prop):
                                                           "script o3 md hbs", "tick", "do o0 dest,o2", "do o0 hbs", "tick"])
         mk("item-destructs-its-carrier-in-own-beat", carrier + ["do o0 shb,o3,1", "script o3 md shb,o2,1;hbs",
                                                                  "script o3 hb:0 dest,o2;hbs;q,o3", "tick", "do o0 hbs", "tick"])
+        # --- an error raised inside move_or_destruct() leaves destruct_object: the carrier survives, the caller's
+        #     heart beat (and only that) is switched off when the destruct was issued from a heart_beat
+        mk("hook-error-at-top-level", carrier + ["script o3 md shb,o5,0;err;shb,o5,1", "tick", "do o0 dest,o2", "do o0 hbs",
+                                                  "do o0 q,o2", "tick", "do o0 dest,o2", "tick"])
+        mk("hook-error-inside-heart-beat", carrier + ["script o3 md shb,o2,2;err", "script o4 hb:1 dest,o2;hbs", "tick", "tick",
+                                                       "do o0 hbs", "tick", "tick"])
+        mk("hook-error-second-item", carrier + ["do o2 take,o4", "script o3 md err", "script o4 md hbs;cerr", "tick",
+                                                 "do o5 dest,o2", "do o0 hbs", "do o0 dest,o3", "do o5 dest,o2", "do o0 hbs", "tick"])
+        mk("hook-error-carrier-destructs-itself-in-beat", carrier + ["script o3 md err", "script o2 hb:0 dest,o2;hbs", "tick",
+                                                                      "do o0 hbs", "tick"])
         mk("take-refusals", ["do o0 clone,o2,0,1", "do o0 clone,o3,0,1", "do o0 clone,o4,0,1", "do o2 take,o3", "do o3 take,o4",
                              "do o4 take,o2", "do o2 take,o2", "do o2 take,o0", "do o2 take,o9", "do o4 take,o3",
                              "do o0 dest,o2", "do o4 take,o3", "tick"])
@@ -352,7 +362,8 @@ class C11(Prop):
                 body.append("do o%d take,o%d" % (c, i))
                 hops = []
                 for _ in range(rng.range(1, 3)):
-                    k = rng.weighted([("wake", 5), ("shb", 3), ("hbs", 1), ("q", 1), ("flag", 1), ("clone", 1)])
+                    k = rng.weighted([("wake", 5), ("shb", 3), ("hbs", 1), ("q", 1), ("flag", 1), ("clone", 1), ("err", 1),
+                                      ("cerr", 1)])
                     if k == "wake":
                         hops.append("shb,o%d,%d" % (c, rng.weighted([(1, 5), (2, 2), (0, 1)])))
                     elif k == "shb":
